@@ -298,7 +298,7 @@ class FnEval:
         rv = d[3][2]
         reads = []
         if rv[0] == "use" and rv[1][0] in ("cp", "mv"):
-            key = self.expr_key(rv[1], reads)
+            key = self._opk(rv[1], reads, 0, bi)       # the read happens in this definition's block
         elif rv[0] == "bin":
             key = (rv[1], self._opk(rv[2], reads, 0, bi), self._opk(rv[3], reads, 0, bi))
         elif rv[0] == "cast":
@@ -1427,7 +1427,33 @@ class FnEval:
         d = dict(l1[0])
         for k_, v_ in l2[0].items():
             d[k_] = d.get(k_, 0) - v_
+        if all(v_ == 0 for v_ in d.values()) and l1[1] == l2[1]:
+            return True
+        d = self.parity_rewrite(d)
         return all(v_ == 0 for v_ in d.values()) and l1[1] == l2[1]
+
+    def parity_rewrite(self, d):
+        """Under a dominating test `(x & 1) == 0` the value x equals 2 * (x >> 1): rewrite atom x accordingly
+        (`let rlen = sig.len() >> 1` after the evenness check: len - rlen == rlen)."""
+        at = self.at
+        if at is None:
+            return d
+        even = []
+        for (gk, greads, lo, hi, efrom, eto) in self.value_guards():
+            if gk[0] == "BitAnd" and gk[2] == ("k", 1) and lo == 0 and hi == 0:
+                if eto == at or self.b.dominates(eto, at):
+                    preds = [p for p in self.b.pred[eto] if p in self.b.reachset]
+                    if all(p == efrom for p in preds):
+                        even.append(gk[1])
+        if not even:
+            return d
+        out = dict(d)
+        for x in even:
+            if out.get(x):
+                c = out.pop(x)
+                h = ("Shr", x, ("k", 1))
+                out[h] = out.get(h, 0) + 2 * c
+        return out
 
     def range_operands(self, op):
         """(kind, start operand, end operand) of a range-typed operand (operands, not intervals)."""
